@@ -164,7 +164,8 @@ impl SeqRes {
     pub fn all_ok(&self) -> bool {
         self.cmds.iter().all(|c| match c.name {
             // `check` exits 1 on warnings; only errors make it unsuccessful
-            "check" => !c.crashed() && !c.diags.iter().any(|d| d.severity == "error"),
+            // (its final "veryl check failed" line is an error record without a code)
+            "check" => !c.crashed() && !c.diags.iter().any(|d| d.severity == "error" && !d.code.is_empty()),
             _ => c.code == Some(0),
         })
     }
